@@ -661,7 +661,12 @@ Definition m_is_nil : pfn := mkpfn (B "IsNil") None [v_it] (pblk [
   PIf (EIsNil NIface e_it) (pblk [PReturn (EBool true)]) PSkip;
   PDecl (B "isNil") (EBool false);
   PIf (ECall (B "IsIRI") (arg1 e_it))
-    (pblk [PSet (B "isNil")
+    (pblk [(* since the repair "IsNil panicked on a nil *IRI": a nil pointer to an IRI is nil, asked before the value-receiver
+              method GetLink is called through it (a nil *IRI has no rendering as a model item: on every item of the model
+              this test is false) *)
+           PAssert (B "p") (B "ok") (GT true TBIri) e_it;
+           PIf (EAnd (EVar (B "ok")) (EIsNil NPtr (EVar (B "p")))) (pblk [PReturn (EBool true)]) PSkip;
+           PSet (B "isNil")
              (EOr (EEq (ELen e_getlink) (EInt 0))
                   (ECall (B "strings.EqualFold")
                          (EArg (EMeth (B "IRI.String") e_getlink ENoArg)
